@@ -392,6 +392,9 @@ class TransformRunner(aggregates.Aggregatable, Iterable[_ValueT]):
     """Gets the result from the aggregation state."""
     result = tree.TreeMapView()
     for key, fn_state in state.items():
+      # The state can also hold the states of other runners in the same chain.
+      if key.metrics not in self.agg_fns:
+        continue
       outputs = self.agg_fns[key.metrics].get_result(fn_state)
       flattened_keys = key.metrics
       # Only convert str key to MetricKey format when there is slices.
